@@ -101,6 +101,20 @@ def rewrite_event(ctx, py: PyRepo):
             pv = effects['proof'][1][2][0] if effects['proof'][1][2] else None
             want = ('call', ('attr', SELF, 'dynamic_inst'),
                     (('call', ('attr', SELF, 'load_axiom'), (('attr', ('param', 'rule'), 'pattern'),), ()), ('param', 'substitution')), ())
+            def positional(v):
+                # self.m(k=..) with the keyword arguments put in the order of m's parameters (m looked up along the class's bases)
+                if not isinstance(v, tuple):
+                    return v
+                v = tuple(positional(x) for x in v)
+                if len(v) == 4 and v[0] == 'call' and isinstance(v[1], tuple) and v[1][:2] == ('attr', SELF) and v[3]:
+                    m_ = next((k_.methods[v[1][2]] for k_ in py.mro(ci) if v[1][2] in k_.methods), None)
+                    if m_ is not None:
+                        names = [a.arg for a in m_.args.args[1:]][len(v[2]):]
+                        kw = dict(v[3])
+                        if len(kw) == len(v[3]) and set(kw) == set(names[:len(kw)]):
+                            return ('call', v[1], tuple(v[2]) + tuple(kw[n_] for n_ in names[:len(kw)]), ())
+                return v
+            pv = positional(pv) if pv else pv
             ctx.ob('rewrite-typestate', f'proof-is-instantiated-axiom/path{i}', pv == want,
                    f'the proof registered is {show(pv) if pv else None}; expected the rule axiom instantiated with the same substitution', where)
     # the rule whose axiom the proof loads is declared as an axiom of the module in the same step (load_axiom refuses undeclared
@@ -131,12 +145,12 @@ def rewrite_event(ctx, py: PyRepo):
                     continue
                 calls = [c for a in sp.actions for c in ast.walk(a) if isinstance(c, ast.Call) and isinstance(c.func, ast.Attribute)
                          and c.func.attr == 'rewrite_event']
-                if len(calls) != 1 or [ast.unparse(a) for a in calls[0].args] != [f'{h}.axiom', f'{h}.substitutions'] or calls[0].keywords:
+                if len(calls) != 1 or by_name(calls[0], ci.methods.get('rewrite_event')) != [f'{h}.axiom', f'{h}.substitutions']:
                     ok_fh, why_fh = False, 'a hint is passed over (or replayed with other arguments than its own rule and substitution)'
                 makes = [a for a in sp.actions if isinstance(a, (ast.Assign, ast.AnnAssign)) and a.value is not None and isinstance(a.value, ast.Call)
                          and ast.unparse(a.value.func) == ci.name]
                 first = sp.holds(f'{ast.unparse(calls[0].func.value)} is None') if calls else None
-                if makes and (first is not True or [ast.unparse(x) for x in makes[0].value.args][1:] != [f'{h}.configuration_before']):
+                if makes and (first is not True or (by_name(makes[0].value, ci.methods.get('__init__')) or [None])[1:] != [f'{h}.configuration_before']):
                     ok_fh, why_fh = False, 'the proof expression is re-created after the first hint, or not started at the first hint\'s configuration'
                 if not makes and first is True:
                     ok_fh, why_fh = False, 'no proof expression is created for the first hint'
@@ -268,15 +282,28 @@ def conversion_scope(ctx, py: PyRepo):
             var = ast.unparse(st.value)
             key = ast.unparse(st.targets[0].slice)
             # find the nearest preceding `var = ConvertionScope()` and `x = ..._convert_pattern(var, ...)` and `ax = module.*(x)` with key ax.ordinal
-            prev = [n for n in body_nodes if isinstance(n, ast.Assign) and n.lineno < st.lineno and st.lineno - n.lineno <= 6]
+            # the bindings that reach the store: the assignments before it in its own block (another branch's bindings do not)
+            blk_ = next((getattr(h, f_) for h in body_nodes for f_ in ('body', 'orelse', 'finalbody')
+                         if isinstance(getattr(h, f_, None), list) and any(x is st for x in getattr(h, f_))), [])
+            prev = [n for n in blk_[:next((i for i, x in enumerate(blk_) if x is st), 0)] if isinstance(n, ast.Assign)]
             fresh = any(isinstance(n.targets[0], ast.Name) and n.targets[0].id == var and isinstance(n.value, ast.Call)
                         and ast.unparse(n.value.func) == 'ConvertionScope' for n in prev)
             conv = [n for n in prev if isinstance(n.value, ast.Call) and ast.unparse(n.value.func).endswith('_convert_pattern')
                     and n.value.args and ast.unparse(n.value.args[0]) == var]
+            pat_var = ast.unparse(conv[-1].targets[0]) if conv else None
+            if not fresh and not conv:
+                # the two steps in one helper method: `scope, pattern = <semantics>._m(src)` where _m makes a fresh scope, converts its
+                # argument in it and hands both back
+                for n in prev:
+                    tg = n.targets[0]
+                    if isinstance(tg, ast.Tuple) and len(tg.elts) == 2 and all(isinstance(t, ast.Name) for t in tg.elts) and isinstance(n.value, ast.Call) \
+                            and isinstance(n.value.func, ast.Attribute) and n.value.func.attr in sem.methods and var in [t.id for t in tg.elts]:
+                        summ = fresh_scope_converter(sem.methods[n.value.func.attr])
+                        if summ is not None and tg.elts[summ[0]].id == var:
+                            fresh, conv, pat_var = True, [n], tg.elts[summ[1]].id
             keyed = False
             if conv and key.endswith('.ordinal'):
                 axv = key[:-len('.ordinal')]
-                pat_var = ast.unparse(conv[-1].targets[0])
                 keyed = any(isinstance(n.targets[0], ast.Name) and n.targets[0].id == axv and isinstance(n.value, ast.Call)
                             and n.value.args and ast.unparse(n.value.args[0]) == pat_var for n in prev)
             ctx.ob('scope-per-axiom', f'{mname}@{key}', fresh and bool(conv) and keyed,
@@ -423,10 +450,15 @@ def trace_pairs(ctx, py: PyRepo):
     probs = []
     hit = 0
     for sp in AP.paths(lp.body):
+        yields_ = any(isinstance(x, ast.Yield) for a in sp.actions for x in ast.walk(a))
         if sp.end == 'raise' or sp.holds(f'isinstance({E1}, LLVMRuleEvent)') is not True \
-                or any(c_.startswith('isinstance(') and not b_ for c_, b_ in sp.conds):
-            continue
+                or (not yields_ and any(c_.startswith('isinstance(') and not b_ for c_, b_ in sp.conds)):
+            continue                      # (a pair filtered out by a class test yields nothing: not a step)
         hit += 1
+        if any(isinstance(x, ast.Yield) for a in sp.actions for x in ast.walk(a)) \
+                and not any(b_ and re.fullmatch(rf'isinstance\({E2}, (\w+\.)*Pattern\)', c_) for c_, b_ in sp.conds):
+            probs.append(f'a step is built from a rule event whatever follows it: the entry after the event must be a configuration '
+                         f'(isinstance({E2}, kore.Pattern)) - a side-condition or function event would be converted as the next configuration')
         env = {}
         order = {}
         simultaneous = set()
@@ -460,7 +492,13 @@ def trace_pairs(ctx, py: PyRepo):
                 def visit_Name(self, n_):
                     v_ = env.get(n_.id)
                     return _cp.deepcopy(v_) if isinstance(v_, (ast.Attribute, ast.Name)) and isinstance(n_.ctx, ast.Load) else n_
-            return ast.unparse(A().visit(_cp.deepcopy(e)))
+            out = _cp.deepcopy(e)
+            for _ in range(4):                           # aliases of aliases (`ordinal = ev.rule_ordinal`, `ev = event`)
+                nxt = A().visit(_cp.deepcopy(out))
+                if ast.unparse(nxt) == ast.unparse(out):
+                    break
+                out = nxt
+            return ast.unparse(out)
         before, after = bound.get(cparams[0]), bound.get(cparams[1])
         b_txt, a_txt = val(before) if before is not None else '', val(after) if after is not None else ''
         # after: the conversion of the second entry of the pair
@@ -547,6 +585,58 @@ def conversion_keeps_component_order(ctx, py: PyRepo):
                py.where(SEM, rets[0]))
     ctx.require(n >= 8, 'LanguageSemantics._convert_pattern: fewer than 8 arms of the shape `case kore.X(..): return <notation>(<conversions>)`')
     ctx.floor('conversion-order', 8)
+
+
+def by_name(call, fdef):
+    """the arguments of a method call as text in the order of the method's parameters (self dropped), keyword arguments put in
+    their places; None when they cannot be matched (star arguments, unknown names)"""
+    if fdef is None:
+        return [ast.unparse(a) for a in call.args] if not call.keywords else None
+    params = [a.arg for a in fdef.args.args[1:]]
+    if any(isinstance(a, ast.Starred) for a in call.args) or any(k.arg is None for k in call.keywords) or len(call.args) > len(params):
+        return None
+    out = dict(zip(params, (ast.unparse(a) for a in call.args)))
+    for k in call.keywords:
+        if k.arg not in params or k.arg in out:
+            return None
+        out[k.arg] = ast.unparse(k.value)
+    if set(out) != set(params[:len(out)]):
+        return None
+    return [out[p_] for p_ in params[:len(out)]]
+
+
+def fresh_scope_converter(m):
+    """a method `def _m(self, P): S = ConvertionScope(); return (S, self._convert_pattern(S, P))` (either order) -> (index of the scope,
+    index of the converted pattern) in the returned pair; None for anything else"""
+    params = [a.arg for a in m.args.args[1:]]
+    rets = [r for r in ast.walk(m) if isinstance(r, ast.Return)]
+    if len(params) != 1 or len(rets) != 1 or not (isinstance(rets[0].value, ast.Tuple) and len(rets[0].value.elts) == 2):
+        return None
+    env = {}
+    for st in m.body:
+        if isinstance(st, ast.Assign) and len(st.targets) == 1 and isinstance(st.targets[0], ast.Name):
+            if st.targets[0].id in env:
+                return None
+            env[st.targets[0].id] = st.value
+        elif isinstance(st, ast.Expr) and isinstance(st.value, ast.Constant) or st is rets[0]:
+            continue
+        else:
+            return None
+
+    def res(e):
+        return env.get(e.id, e) if isinstance(e, ast.Name) else e
+    a, b = rets[0].value.elts
+    for i, (sc, cv) in enumerate(((a, b), (b, a))):
+        if not isinstance(sc, ast.Name):
+            continue
+        made = env.get(sc.id)
+        c = res(cv)
+        if isinstance(made, ast.Call) and ast.unparse(made.func) == 'ConvertionScope' and not made.args and not made.keywords \
+                and isinstance(c, ast.Call) and ast.unparse(c.func) == 'self._convert_pattern' and len(c.args) == 2 and not c.keywords \
+                and isinstance(c.args[0], ast.Name) and c.args[0].id == sc.id and isinstance(c.args[1], ast.Name) and c.args[1].id == params[0] \
+                and sum(1 for x in ast.walk(m) if isinstance(x, ast.Name) and x.id == sc.id and isinstance(x.ctx, ast.Load)) == 2:
+            return (i, 1 - i)
+    return None
 
 
 def run(ctx):
